@@ -122,7 +122,7 @@ def build(cfg, src):
     if cfg.get("retry"):
         emit(False, [Q.long_packet(ci, "initial", odcid, c_cid, nxt(C, "initial"), pn_len("c_init"), cat(crypto(0, ch), bytes(3)))], None, ch, "Initial(CH) before Retry")
         retry_scid = src.bytes("retry_scid", cfg.get("s_cid_len", 8))
-        token = src.bytes("retry_token", 3)
+        token = src.bytes("retry_token", cfg.get("token_len", 3))
         emit(True, [Q.retry_packet(c_cid, retry_scid, token)], note="Retry")
         odcid = retry_scid
         ci, si = Q.initial_keys(odcid)
